@@ -739,6 +739,9 @@ def _validate_scsv_schema(schema):
         )
         return False
     for field in schema["fields"]:
+        if "name" not in field:
+            _log.error("SCSV field without a name: %s", field)
+            return False
         if not field["name"].isidentifier():
             _log.error(
                 "SCSV field name '%s' is not a valid Python identifier", field["name"]
